@@ -17,6 +17,7 @@ type RunSpec struct {
 	Fuel          int64          `json:"fuel"`
 	MaxPaths      int64          `json:"max_paths"`
 	Timeout       time.Duration  `json:"timeout"`
+	StopAfterVio  time.Duration  `json:"stop_after_violation"` // >0: stop this long after the first violation outside the known predicates
 	Workers       int            `json:"workers"`
 	Sched         bool           `json:"sched"`
 	Preempt       int            `json:"preempt"`
@@ -60,6 +61,6 @@ func (l *Loaded) Run(spec RunSpec, solver string, solverMs int) (*interp.Explore
 		}
 		return w, nil
 	}
-	cfg := interp.RunConfig{Workers: spec.Workers, Fuel: spec.Fuel, MaxPaths: spec.MaxPaths, Timeout: spec.Timeout, Debug: spec.Debug}
+	cfg := interp.RunConfig{Workers: spec.Workers, Fuel: spec.Fuel, MaxPaths: spec.MaxPaths, Timeout: spec.Timeout, StopAfterVio: spec.StopAfterVio, Debug: spec.Debug}
 	return interp.Explore(mk, func(*interp.Worker) *ssa.Function { return fn }, cfg)
 }
